@@ -28,7 +28,7 @@ MANIFEST = {
     "category": "fault_enumeration",
     "text": "Every device operation of every corpus plan is failed in three modes under three plan reactions; the traced "
             "plan records where and what was thrown at it, and the call outcome must follow the reaction.",
-    "note": "Corpus plans; one fault per execution.",
+    "note": "Corpus plans (incl. locate in all shapes, motions waited for after later checkpoints / after open_run); one fault per execution, optionally a pause or suspension before the wait.",
     "design_ref": "3 (C12)",
 }
 PLANS_Q = ["scan", "custom", "fly", "count", "nested", "locate2", "late_wait2"]
